@@ -456,26 +456,30 @@ class Session:
         vloop.VClock.offset += (self.lifetime or 0) + 1
         return self._collect({"e": "jumplife"})
 
-    def settle(self, *, hs=None, data=None, connect="ok", deliver=True, limit=60):
+    def settle(self, *, hs=None, data=None, connect="ok", deliver=True, limit=60, until=None, last=None):
         """Run the active call to its end with a plain environment: connects resolve as `connect`, every in-flight message is
         delivered in order (unless deliver=False: the network drops it), otherwise the pending library timer fires.
         hs / data = class of the device's reaction to every handshake / data transmission made meanwhile (None: valid)."""
         n = 0
+        if until is not None and last is not None and until(last):
+            return last[-1]
         while self.task is not None:
             n += 1
             if n > limit:
                 raise RuntimeError("call does not terminate")
             self.next_reply_hs, self.next_reply_data = hs, data
             if self.net.pending_connect is not None:
-                self.conn(connect)
+                evs = self.conn(connect)
             elif self.parked and deliver:
-                self.deliver(0)
+                evs = self.deliver(0)
             elif self.parked:
-                self.drop(0)
+                evs = self.drop(0)
             elif self.loop.pending_timers():
-                self.timer()
+                evs = self.timer()
             else:
                 raise RuntimeError("call is stuck: nothing to deliver, no timer")
+            if until is not None and until(evs):
+                break
         self.next_reply_hs = self.next_reply_data = None
         return self.trace[-1]
 
